@@ -27,7 +27,7 @@ CLAUSES = {
     "71": "C07: the connection has ended and every task was polled again, but a send / readiness future is still "
           "pending (it must resolve with Disconnected)",
     "81": "C08: a packet was written while a streamed PUBLISH payload was still owed (interleaved into the payload)",
-    "82": "C08: a send returned PacketIdInUse / an encoder error / StreamingCancelled but its packet was written",
+    "82": "C06/C08: a send returned PacketIdInUse / an encoder error / StreamingCancelled but its packet was written",
     "131": "C13: at quiescence a task is still parked although the window is open, back-pressure is off and "
            "nothing is outstanding (not one of the recorded findings)",
     "132": "C13: a streamed chunk send that was parked on write back-pressure is still pending although back-pressure "
@@ -154,7 +154,7 @@ def track(ver, case, obs, want):
                 if u != t and u < 100 and prev_tasks.get(u, st) != st:
                     return "0,142,%d" % i
         # --- a send that returns an error must not have written anything (C08: "a failed send leaves no bytes")
-        if 8 in want and code in (1, 2) and t is not None and tasks.get(t) in (4, 5, 7) and prev_tasks.get(t) in (None, 0, 1) \
+        if (8 in want or 6 in want) and code in (1, 2) and t is not None and tasks.get(t) in (4, 5, 7) and prev_tasks.get(t) in (None, 0, 1) \
                 and any(tag in (PUB1, PUB2, PUB0, SUB, UNSUB) for (tag, _) in wire):
             return "0,82,%d" % i
         # --- status transitions
